@@ -65,7 +65,7 @@ theorem hadFresh_verify_stops (m : M) (hd : m.1.doVerify = true) (he : m.1.errC 
   dsimp only
   rw [if_pos (by simpa using hd)]
   simp only [onSt_fst]
-  exact ⟨stop_stopAnn_of_errC _ _ (by simpa using he), by simp, by rw [stop_panicked]; simpa using hp,
+  exact ⟨stop_stopAnn_of_errC _ _ (by simpa using he), stop_doVerify_false _ _ rfl, by rw [stop_panicked]; simpa using hp,
     by simpa using he⟩
 
 /-- Allocation with no bitfield, no file present and a verification pending: nothing to verify, the flag is
@@ -106,7 +106,7 @@ theorem handleVerificationDone_doVerify_stop (m : M) (hd : m.1.doVerify = true) 
       ({ (hvdInstall m).1 with doVerify := false } : St).status = .stopped) := by
     rw [status_stopping_iff, status_stopped_iff]
     simp [he, hs]
-  refine ⟨?_, by simp, by rw [stop_panicked]; exact hpan, by simpa using he⟩
+  refine ⟨?_, stop_doVerify_false _ _ rfl, by rw [stop_panicked]; exact hpan, by simpa using he⟩
   rw [stop_eq, if_neg hst]
   rfl
 
